@@ -26,5 +26,22 @@ def special_payloads(bundle, rnd):
     return out
 
 
+def syncy_payloads(rnd, n=12):
+    """unknown-type payloads dense in sync / header bytes, some holding a complete valid frame"""
+    from .decode_rec import frame_of
+
+    out = []
+    for k in range(n):
+        mid = rnd.choice([2000, 2001, 3000, 4090])
+        body = bytes(rnd.choice([0xD3, 0x00, 0x01, 0x02, 0x03, 0xB5, 0x62, 0x24, 0x47, 0x0A, 0x0D, rnd.randrange(256)]) for _ in range(rnd.randint(4, 60)))
+        if k % 3 == 0:
+            inner = frame_of(bytes([0x3E, 0xD0]) + bytes(rnd.randrange(256) for _ in range(17)))
+            body = body[: len(body) // 2] + inner + body[len(body) // 2:]
+        if k % 4 == 1:
+            body = b"\xd3\x00\x04" + body + b"\xd3\x03\xff"
+        out.append(bytes([mid >> 4, (mid & 0xF) << 4]) + body)
+    return out
+
+
 def log_files():
     return sorted(glob.glob(os.path.join(REPO, "tests", "*.log")) + glob.glob(os.path.join(REPO, "tests", "*.bin")))
